@@ -574,18 +574,23 @@ Section CTX.
   Lemma tgood_weaken s : tgood B s -> tgood BR s.
   Proof. intros H. unfold tgood in *. eapply Forall_impl; [|exact H]. intros sc Hs. left. exact Hs. Qed.
 
-  Lemma traces_data_good main : tgood B main -> tgood BR (P.traces_data c main).
+  (* both reads of tempo_traces carry traces.timestamp_ns >= From and < To (fix 87d7e49; before it they were restricted by
+     trace_id IN (trace_ids) alone) *)
+  Lemma traces_data_good main : tgood B main -> tgood B (P.traces_data c main).
   Proof.
-    intros Hm. unfold P.traces_data. apply tgood_set_with.
-    - constructor; [apply tgood_weaken, Hm|]. constructor; [|constructor; [|constructor; [|constructor]]]; cbn [snd]; unfold tgood;
+    intros Hm. pose proof ctx_order as Ho. pose proof (tt_traces info c Htab) as Ht. pose proof (tt_traces_dist info c Htab) as Htd.
+    unfold P.traces_data. apply tgood_set_with.
+    - constructor; [exact Hm|]. constructor; [|constructor; [|constructor; [|constructor]]]; cbn [snd]; unfold tgood;
         rewrite tq_sscans_eq; cbn [wsc flat_map app tq_own_scan tq_base_table tq_join_scan fst snd oe tq_escans jes]; try constructor.
-      + right. left. reflexivity.
+      + eapply data_bounded; [exact Ht | reflexivity | |]; unfold W, tq_win; cbn [w_from w_to w_lo_min w_hi_max]; lia.
       + constructor.
     - rewrite tq_sscans_eq. cbn [wsc flat_map app tq_own_scan tq_base_table tq_join_scan fst snd oe tq_escans jes].
-      constructor; [|constructor]. right. left. reflexivity.
+      constructor; [|constructor].
+      destruct (P.is_cluster c);
+        (eapply data_bounded; [first [exact Ht | exact Htd] | reflexivity | |]; unfold W, tq_win; cbn [w_from w_to w_lo_min w_hi_max]; lia).
   Qed.
 
-  Lemma plan_search_good q n s : P.plan_search q c n = P.Ok s -> tgood BR s.
+  Lemma plan_search_good q n s : P.plan_search q c n = P.Ok s -> tgood B s.
   Proof.
     unfold P.plan_search. unfold P.bind at 1. destruct (P.plan_index q c n) as [s0| |] eqn:E; try discriminate.
     intros [= <-]. destruct (plan_index_good _ _ _ E) as [_ H0]. pose proof (traces_data_good s0 H0) as Ht.
@@ -644,7 +649,7 @@ Section CTX.
     - unfold W, tq_win. cbn [w_to]. apply day_mono. lia.
   Qed.
 
-  Theorem plan_good q m n s : P.plan q m c n = P.Ok s -> tgood BR s.
+  Theorem plan_good q m n s : P.plan q m c n = P.Ok s -> tgood B s.
   Proof.
     unfold P.plan. destruct m as [| |key].
     - apply plan_search_good.
@@ -652,14 +657,14 @@ Section CTX.
       unfold P.bind at 1. destruct (P.check q) as [u| |]; try discriminate.
       destruct (P.analyze (Traceql.sc_head q)) as [cond terms].
       unfold P.bind at 1. destruct (P.attr_condition c terms cond _ n) as [main| |] eqn:E; try discriminate.
-      intros [= <-]. apply tgood_weaken. apply (tags_result_good [T.Col (T.Id "key") "key"] []); [reflexivity | constructor|].
+      intros [= <-]. apply (tags_result_good [T.Col (T.Id "key") "key"] []); [reflexivity | constructor|].
       apply select_tags_shape. apply (idx_result_good (P.attrs_table c)); [apply Htab | apply (attr_condition_idx _ _ _ _ _ E)].
     - destruct (Traceql.sc_tail q); [discriminate|].
       unfold P.bind at 1. destruct (P.check q) as [u| |]; try discriminate.
       destruct (P.analyze (Traceql.sc_head q)) as [cond terms].
-      destruct cond as [cd|]; [|intros [= <-]; apply tgood_weaken, all_values_good].
+      destruct cond as [cd|]; [|intros [= <-]; apply all_values_good].
       unfold P.bind at 1. destruct (P.attr_condition c terms (Some cd) _ n) as [main| |] eqn:E; try discriminate.
-      intros [= <-]. apply tgood_weaken.
+      intros [= <-].
       apply (tags_result_good [T.Col (T.Id "val") "val"] [T.LOp T.OEq [T.Id "key"; T.StrV key]]); [reflexivity | |].
       + constructor; [|constructor]. split; [reflexivity|]. cbn. constructor; [apply neutral_key_eq | constructor].
       + apply select_values_shape. apply (idx_result_good (P.attrs_table c)); [apply Htab | apply (attr_condition_idx _ _ _ _ _ E)].
@@ -688,9 +693,9 @@ Section CTX.
 End CTX.
 
 (* ------------------------------------------------------------------ the theorems, closed *)
-Theorem tq_plan_scans_confined info c q m n s :
+Theorem tq_plan_scans_bounded info c q m n s :
   tq_tables info c -> tq_ctx_ok c -> P.plan q m c n = P.Ok s ->
-  Forall (fun sc => scan_bounded info (tq_win c) sc \/ trace_restricted sc) (tq_scans s).
+  Forall (scan_bounded info (tq_win c)) (tq_scans s).
 Proof. intros Ht Hc Hp. exact (plan_good info c Ht Hc q m n s Hp). Qed.
 
 Theorem tq_index_scans_bounded info c q n s :
@@ -734,22 +739,10 @@ Definition tq_res (q : Traceql.script) (m : P.mode) : option T.select :=
   match P.plan q m tq_ctx0 1 with P.Ok s => Some s | _ => None end.
 Definition tq_all_bounded_b (s : T.select) : bool := forallb (scan_bounded_b table_info (tq_win tq_ctx0)) (tq_scans s).
 
-(* the statement of a search reads tempo_traces twice without a timestamp bound *)
-Lemma tq_search_fetch_unbounded :
-  exists s, P.plan tq_q0 P.MSearch tq_ctx0 1 = P.Ok s /\ ~ Forall (scan_bounded table_info (tq_win tq_ctx0)) (tq_scans s).
-Proof.
-  destruct (P.plan tq_q0 P.MSearch tq_ctx0 1) as [s| |] eqn:E; [|vm_compute in E; discriminate E|vm_compute in E; discriminate E].
-  exists s. split; [reflexivity|]. intros H.
-  assert (Hb : tq_all_bounded_b s = true).
-  { unfold tq_all_bounded_b. apply forallb_forall. intros sc Hin. apply scan_bounded_b_iff. rewrite Forall_forall in H. apply H, Hin. }
-  assert (Hc : match P.plan tq_q0 P.MSearch tq_ctx0 1 with P.Ok s => tq_all_bounded_b s | _ => true end = false) by (vm_compute; reflexivity).
-  rewrite E in Hc. rewrite Hc in Hb. discriminate Hb.
-Qed.
-
 (* the hypotheses are met: simple and complex search, tags, values with and without a selector *)
 Lemma tq_examples :
-  (match tq_res tq_q0 P.MSearch with Some s => Nat.leb 3 (List.length (tq_scans s)) | None => false end = true) /\
-  (match tq_res tq_q1 P.MSearch with Some s => Nat.leb 5 (List.length (tq_scans s)) | None => false end = true) /\
+  (match tq_res tq_q0 P.MSearch with Some s => Nat.leb 3 (List.length (tq_scans s)) && tq_all_bounded_b s | None => false end = true) /\
+  (match tq_res tq_q1 P.MSearch with Some s => Nat.leb 5 (List.length (tq_scans s)) && tq_all_bounded_b s | None => false end = true) /\
   (match tq_res tq_q0 P.MTags with Some s => Nat.leb 2 (List.length (tq_scans s)) && tq_all_bounded_b s | None => false end = true) /\
   (match tq_res tq_q0 (P.MValues "service.name") with Some s => Nat.leb 2 (List.length (tq_scans s)) && tq_all_bounded_b s | None => false end = true).
 Proof. repeat split; vm_compute; reflexivity. Qed.
